@@ -412,7 +412,10 @@ impl<VM: VMBinding> MarkCompactSpace<VM> {
     }
 
     pub fn compact(&self) {
-        let mut to = Address::ZERO;
+        // If no object survives, everything from the start of the first region is free.
+        let Some((mut to, _)) = self.pr.iterate_allocated_regions().next() else {
+            return;
+        };
         for (from_start, size) in self.pr.iterate_allocated_regions() {
             let from_end = from_start + size;
             for obj in self.linear_scan_objects(from_start..from_end) {
